@@ -27,6 +27,15 @@ class _StubMeta(abc.ABCMeta):
             raise AttributeError(name)
         return _make_stub(f"{cls.__name__}.{name}")
 
+    def __iter__(cls):
+        return iter(())
+
+    def __len__(cls):
+        return 0
+
+    def __setitem__(cls, key, value):
+        pass
+
     def __instancecheck__(cls, inst):
         return type.__instancecheck__(cls, inst)
 
@@ -47,13 +56,28 @@ class Stub(metaclass=_StubMeta):
     _stub_name = "Stub"
 
     def __init__(self, *a, **k):
-        pass
+        # keyword arguments become attributes (enough for the module-level default configs
+        # `MPSConfig(...)` / `SVConfig(...)` that the backends build at import time)
+        self.__dict__.update(k)
+        self.__dict__.setdefault("_backend_options", dict(k))
 
     def __init_subclass__(cls, **k):
         pass
 
     def __call__(self, *a, **k):
         return None
+
+    def __iter__(self):
+        return iter(())
+
+    def __len__(self):
+        return 0
+
+    def __getitem__(self, key):
+        return _make_stub(f"{type(self).__name__}[]")
+
+    def __setitem__(self, key, value):
+        pass
 
     def __getattr__(self, name):
         if name.startswith("__") and name.endswith("__"):
